@@ -7,7 +7,7 @@ import ast
 from ..core import Ctx, RuleResult, finding, short, walk_no_nested
 from ..model import AnalysisError, norm
 from ..mutants import Mut
-from ..rules import dim
+from ..rules import dim, inv
 from ..rules.defuse import DefUse
 from ..rules.util import callee_name, cfg_of, lin_str, linear, nodes_where
 
@@ -16,7 +16,8 @@ EXPLANATION = (
     "(2) running-remainder apportionment (Columns.column_widths, Pile.get_item_rows): in the loop that assigns each weighted child int(R * w / W + 0.5), the remaining space R is decremented "
     "by the share and the remaining weight W by the child's weight on every iteration path - the idiom that makes the shares sum exactly to the space - and a loop whose share is clamped "
     "from below (min_width) visits the weights in ascending order (sorted), so that the clamped excess is absorbed by the heavier columns instead of overshooting the space; "
-    "(3) remainder-defined margins: calculate_left_right_padding / calculate_top_bottom_filler define the last margin as available - size - other margin, and every later adjustment of "
+    "(2b) the rows left after the fixed items of a box Pile are clamped to >= 0 before they are shared out, and a class whose _invalidate resets a layout memo (Columns' width cache, which "
+    "depends on the focus column) is never invalidated through a base class behind that override's back; (3) remainder-defined margins: calculate_left_right_padding / calculate_top_bottom_filler define the last margin as available - size - other margin, and every later adjustment of "
     "the two margins is a sum-preserving pair (+shift / -shift) or the final non-clip clamp; (4) GridFlow: the space budget of the row-wrap test exceeds the row's drawn width by exactly "
     "one separator, i.e. a cell is added to a row only if separator + cell still fit."
 )
@@ -80,6 +81,32 @@ def rule_apportion(ctx: Ctx) -> RuleResult:
                     rr.add(finding("ORDER", fi, head.ast, f"the share is clamped from below (`{norm(a.value, 50)}`) but the loop iterates `{ast.unparse(it)}` instead of the weights in ascending order: a heavy column served before a light one that is clamped up makes the widths exceed the available columns", construct=f"clamped shares not visited in ascending order: for ... in {ast.unparse(it)}"))
         if not found:
             raise AnalysisError(f"{q}: the int(R * w / W + 0.5) apportionment was not found")
+    return rr
+
+
+def rule_clamp_before_shares(ctx: Ctx) -> RuleResult:
+    """Pile.get_item_rows subtracts the fixed items from the available rows; what is left can be negative and
+    must be clamped to 0 before it is shared out, otherwise weighted children are handed negative row counts."""
+    p = ctx.p
+    rr = RuleResult("PASS", "C19.2b", "the space left after the fixed items is clamped to >= 0 before it is apportioned", floor=1)
+    fi = p.func("urwid.widget.pile.Pile.get_item_rows")
+    cfg = cfg_of(fi)
+    share = None
+    for n in cfg.nodes:
+        a = n.ast
+        if isinstance(a, ast.Assign) and _share_expr(a.value) is not None:
+            share = (n, _share_expr(a.value)[0])
+    if share is None:
+        raise AnalysisError("Pile.get_item_rows: share expression not found")
+    sn, R = share
+    loops = [h for h in cfg.nodes if h.kind == "for" and any(x is sn.ast for x in ast.walk(h.ast))]
+    subs = [n for n in cfg.nodes if isinstance(n.ast, ast.AugAssign) and isinstance(n.ast.op, ast.Sub) and isinstance(n.ast.target, ast.Name) and n.ast.target.id == R and not any(any(x is n.ast for x in ast.walk(h.ast)) for h in loops)]
+    clamps = [n for n in cfg.nodes if isinstance(n.ast, ast.Assign) and len(n.ast.targets) == 1 and isinstance(n.ast.targets[0], ast.Name) and n.ast.targets[0].id == R and isinstance(n.ast.value, ast.Call) and callee_name(n.ast.value) == "max" and any(isinstance(x, ast.Constant) and x.value == 0 for x in n.ast.value.args) and any(isinstance(x, ast.Name) and x.id == R for x in n.ast.value.args)]
+    rr.inst("clamp between subtraction and shares", True, {"remaining": R, "subtractions_of_fixed_items": len(subs), "clamps": [norm(c.stmt, 50) for c in clamps]})
+    for s_ in subs:
+        if not clamps or sn in cfg.reachable([s_], avoid=clamps, labels=("n", "T", "F")):
+            rr.add(finding("PASS", fi, s_.stmt, f"after `{norm(s_.stmt, 40)}` the share computation can be reached without `{R} = max({R}, 0)`: when the fixed items alone exceed the available rows the weighted children are handed negative row counts", construct=f"{R} not clamped after subtraction"))
+            break
     return rr
 
 
@@ -175,6 +202,8 @@ def run(ctx: Ctx):
     return [
         dim.run_dim(p, "C19.1", MODULES, floor=60, exceptions={}, description="no cols/rows confusion in the allocation code of Columns, Pile, Padding, Filler, Overlay, GridFlow"),
         rule_apportion(ctx),
+        rule_clamp_before_shares(ctx),
+        inv.run_inv_bypass(p, "C19.2c", floor=4),
         rule_margins(ctx),
         rule_gridflow_budget(ctx),
     ]
@@ -189,6 +218,8 @@ MUTANTS = [
     Mut("columns-weight-total-kept", _C, "Columns.column_widths", "                grow -= width\n                wtotal -= weight\n", "                grow -= width\n", "ORDER|widget.columns.Columns.column_widths"),
     Mut("columns-unsorted-clamped", _C, "Columns.column_widths", "for weight, i in sorted(weighted):", "for weight, i in weighted:", "ORDER|widget.columns.Columns.column_widths"),
     Mut("pile-remaining-kept", _P, "Pile.get_item_rows", "                remaining -= rows\n                wtotal -= height\n", "                wtotal -= height\n", "ORDER|widget.pile.Pile.get_item_rows"),
+    Mut("pile-clamp-before-subtraction", _P, "Pile.get_item_rows", "        remaining = max(remaining, 0)\n", "", "PASS|widget.pile.Pile.get_item_rows"),
+    Mut("columns-focus-callback-bypasses-memo", _C, "Columns.__init__", "self._contents.set_focus_changed_callback(lambda f: self._invalidate())", "self._contents.set_focus_changed_callback(lambda f: super(Columns, self)._invalidate())", "INV-BYPASS|"),
     Mut("padding-left-not-remainder", _PD, "calculate_left_right_padding", "left = maxcol - width - right", "left += padding - int_scale(100 - align, 101, padding + 1)", "PAIR|widget.padding.calculate_left_right_padding"),
     Mut("filler-shift-not-paired", _FL, "calculate_top_bottom_filler", "        top -= shift\n        bottom += shift", "        top -= shift", "PAIR|widget.filler.calculate_top_bottom_filler"),
     Mut("gridflow-budget-without-separator", _G, "GridFlow.generate_display_widget", "            used_space = sum(x[1][1] for x in c.contents) + self.h_sep * len(c.contents)\n            pad.width = used_space - self.h_sep", "            used_space = sum(x[1][1] for x in c.contents) + self.h_sep * (len(c.contents) - 1)\n            pad.width = used_space", "PAIR|widget.grid_flow.GridFlow.generate_display_widget"),
